@@ -16,6 +16,11 @@ CLAIMED = {
   note="Trusted: TLC, tools/jbkdec.py and the third-party codecs behind `jbkdrive codec`. An insertion answered by the deduplicating adder with an existing address is judged by the sharing clause only (its own hint cannot also decide the kind of a cluster written earlier).",
   technique="TLA+ spec (ContentPack.tla: HintRespected, DedupShares) model-checked with TLC + trace validation of real creator runs",
   design="5 C16"),
+ "C02": dict(
+  text="EntryStore.tla models schema -> layout -> entry encoding / decoding and both value-store kinds over digit strings (64-bit exact). TLC enumerates every entry set (<=2/3 entries over boundary digit strings, arrays over {0,1}, prefixes 0..2, plain/indexed stores, two variants of unequal size with constant or varying columns) and checks RoundTrip, Sufficient, VariantsEqualSize, StoreResolves and LayoutReparses (the reader's variant-splitting rule reproduces the variants written). Every final state is instantiated with Radix-256 boundary values and run through the real creator and reader, together with seeded random schemas and directed boundary scenarios; EntryStoreTrace.tla accepts a recorded execution only if the layout the independent decoder found in the bytes is sufficient for every value written (any sufficient width), every read returns exactly the entry written at that final position with its variant, each index exposes exactly its window and reads past it are 'none'.",
+  note="Trusted: TLC, tools/jbkdec.py (decoded layout), serde_json for 64-bit values. Creation that fails is accepted only for scenarios marked unrepresentable (store tail > 64 KiB); otherwise it is a violation.",
+  technique="TLA+ spec (EntryStore.tla) model-checked with TLC + spec->code replay of its final states + code->spec trace validation (EntryStoreTrace.tla)",
+  design="5 C02"),
 }
 
 REASON_TODO = "check not built yet (work in progress; see DESIGN.md section 9 for the order of work)"
